@@ -138,6 +138,16 @@ func cacheRunImpl(c corr.Case) []string {
 				}
 				return "cohere ok"
 			}
+			if strings.HasSuffix(t[0], "chtimesms") { // modification time in milliseconds relative to the case's start
+				fs := st.fs
+				if strings.HasPrefix(t[0], "b.") {
+					fs = st.base
+				} else if strings.HasPrefix(t[0], "l.") {
+					fs = st.layer
+				}
+				tm := r.T0.Add(time.Duration(atoi64(t[2])) * time.Millisecond)
+				return fsErr(fs.Chtimes(string(corr.UnHex(t[1])), tm, tm))
+			}
 			if strings.HasPrefix(t[0], "b.") || strings.HasPrefix(t[0], "l.") {
 				res := r.Exec(t)
 				if strings.HasPrefix(res, "h=") {
@@ -227,6 +237,22 @@ func c10Exhaustive(tier string) []corr.Case {
 			}
 		}
 	}
+	// modification times less than a second apart: "newer" is decided on the full time stamps. The cached
+	// copy (stamped ct ms) is expired; the base is rewritten and stamped d ms later / earlier.
+	for _, ct := range []int{-7200000, -7200400, -3600001, -3999999} {
+		for _, d := range []int{1, 7, 300, 999, 1000, -1, -300, 0} {
+			old, nw := genBytes(5, 1), genBytes(6, 2)
+			p := c10Files[0]
+			l := []string{"case cache-mem 3600",
+				"b.mkdirall " + h(filepath.Dir(p)) + " 493", "b.create " + h(p), "h.write 0 " + corr.Hex(old), "h.close 0",
+				fmt.Sprintf("b.chtimesms %s %d", h(p), ct),
+				"readthrough " + h(p),
+				"b.openfile " + h(p) + " 514 420", "h.write 1 " + corr.Hex(nw), "h.close 1",
+				fmt.Sprintf("b.chtimesms %s %d", h(p), ct+d),
+				"readthrough " + h(p), "readthrough " + h(p), "snapshot"}
+			cases = append(cases, corr.Case{Lines: l})
+		}
+	}
 	// directories are never copied; listing through the cache
 	for _, dur := range durs {
 		l := []string{fmt.Sprintf("case cache-mem %d", dur), "b.mkdirall " + h("/d/e") + " 493", "b.create " + h("/d/g"), "h.write 0 31", "h.close 0",
@@ -255,6 +281,9 @@ func c10Random(r *corr.Rand, tier string) []corr.Case {
 				l = append(l, "b.openfile "+h(p)+" 578 420", fmt.Sprintf("h.write %d %s", nh, corr.Hex(payload(rr, rr.Intn(9)))), fmt.Sprintf("h.close %d", nh),
 					fmt.Sprintf("b.chtimes %s %d", h(p), corr.Pick(rr, []int{-9000, -7201, -3601, -1000, -3, 50})))
 				nh++
+				if rr.Chance(25) {
+					l[len(l)-1] = fmt.Sprintf("b.chtimesms %s %d", h(p), corr.Pick(rr, []int{-8000000, -3700000, -3500000})+corr.Pick(rr, []int{1, 250, 999, -1, -500}))
+				}
 			case q < 40: // age the cached copy
 				l = append(l, fmt.Sprintf("l.chtimes %s %d", h(p), corr.Pick(rr, []int{-8000, -3700, -3500, -20})))
 			case q < 45:
@@ -374,7 +403,7 @@ func c11Random(r *corr.Rand, tier string) []corr.Case {
 				fileH = append(fileH, nh)
 				nh++
 			case q < 24:
-				l = append(l, fmt.Sprintf("openfile %s %d 420", h(f), corr.Pick(rr, []int{2, 1, 0x42, 0x242, 0x202, 0x41, 0})))
+				l = append(l, fmt.Sprintf("openfile %s %d 420", h(f), corr.Pick(rr, []int{2, 1, 0x42, 0x242, 0x202, 0x41, 0, 0x401, 0x402, 0x442, 0x441, 0xc2, 0x400, 0x101002})))
 				fileH = append(fileH, nh)
 				nh++
 			case q < 30:
@@ -416,6 +445,39 @@ func c11Random(r *corr.Rand, tier string) []corr.Case {
 	return cases
 }
 
+// every flag combination × every cache state of the target: open through the cache, write, close —
+// base and cache must end up identical (in particular the copy made for a write-open must be whole,
+// wherever the flags put the handle's offset)
+func c11Exhaustive(tier string) []corr.Case {
+	h := corr.HexS
+	var cases []corr.Case
+	flags := c07Flags
+	for _, dur := range []int{0, 3600} {
+		for _, state := range []string{"uncached", "uncached-empty", "cached", "absent"} {
+			for _, fl := range flags {
+				l := []string{fmt.Sprintf("case cache-mem %d", dur), "b.mkdirall " + h("/d") + " 493"}
+				nh := 0
+				switch state {
+				case "uncached", "cached":
+					l = append(l, "b.create "+h("/d/f"), "h.write 0 6c696e6520310a", "h.close 0", "b.chtimes "+h("/d/f")+" -9000")
+					nh = 1
+				case "uncached-empty":
+					l = append(l, "b.create "+h("/d/f"), "h.close 0", "b.chtimes "+h("/d/f")+" -9000")
+					nh = 1
+				}
+				if state == "cached" {
+					l = append(l, "open "+h("/d/f"), fmt.Sprintf("h.read %d 16", nh), fmt.Sprintf("h.close %d", nh))
+					nh++
+				}
+				l = append(l, fmt.Sprintf("openfile %s %d 420", h("/d/f"), fl), fmt.Sprintf("h.write %d 5859", nh), fmt.Sprintf("h.seek %d 0 1", nh),
+					fmt.Sprintf("h.close %d", nh), "snapshot", "cohere")
+				cases = append(cases, corr.Case{Lines: l})
+			}
+		}
+	}
+	return cases
+}
+
 func c11Corpus() []corr.Case {
 	h := corr.HexS
 	return []corr.Case{
@@ -446,7 +508,7 @@ func c11NonTrivial(c corr.Case, impl []string) bool {
 func C11() *corr.Engine {
 	e := C10()
 	e.ID = "C11"
-	e.Exhaustive = nil
+	e.Exhaustive = c11Exhaustive
 	e.Random = c11Random
 	e.Corpus = c11Corpus
 	e.Oracle = c11Oracle
